@@ -76,7 +76,7 @@ def main():
         raise fw.Machinery('SPTime.tla: pipeline violates the contract: %s\n%s' % (res.violated, res.text[-2000:]))
     cases = sorted(res.cases, key=lambda c: json.dumps(c['scn'], sort_keys=True))
     if not thorough:
-        cases = [c for c in cases if c['scn']['stmt2'] != 'none' or c['scn']['conf2'] != 'none' or (c['scn']['tz'] != 'UTC' and chk.rng.random() < 0.5) or chk.rng.random() < 0.25]
+        cases = [c for c in cases if abs(c['scn']['d']) > 10**6 or c['scn']['stmt2'] != 'none' or c['scn']['conf2'] != 'none' or (c['scn']['tz'] != 'UTC' and chk.rng.random() < 0.5) or chk.rng.random() < 0.25]
     nacc = 0
     for case, obs, err in fw.pmap(replay, cases, init=spc.init_worker, chunk=64):
         if err:
